@@ -1,7 +1,11 @@
 package main
 
 import (
+	"context"
+
 	"fmt"
+	"github.com/jrhy/s3db"
+	v1proto "github.com/jrhy/s3db/proto/v1"
 	"strings"
 
 	"verifh/fs3"
@@ -149,6 +153,14 @@ func runC16(c *Case) {
 				ok = false
 			}
 			if len(names) == 1 && len(wv.Problems) == 0 {
+				// timestamps and flags too: what was decoded must be what the writer holds in memory
+				if mem, err := memEntries(w.table); err == nil {
+					c.Count("in_memory_trees_compared", 1)
+					if d := firstDiff(mem, entryStrings(wv, cols)); d != "" {
+						c.Violate(sigp+"decoded-metadata-differs-from-memory", fmt.Sprintf("after %s: entries decoded from the bucket (stamps, delete flags, column times) differ from the writer's in-memory tree (memory vs bucket): %s", why, d), prog)
+						ok = false
+					}
+				}
 				wd := wv.Dump(cols)
 				if d := firstDiff(own, wd); d != "" {
 					c.Violate(sigp+"decoded-differs-from-writer", fmt.Sprintf("after %s: rows decoded from the bucket differ from the writer's scan: %s", why, d), prog)
@@ -345,4 +357,62 @@ func runC16(c *Case) {
 		}
 		c.Res.Sample = map[string]interface{}{"entries_per_node": epn, "writers": nw, "cache_on": cacheOn, "steps": steps, "first_statements": tail}
 	}
+}
+
+// entryStrings renders every entry of a decoded version with all its metadata.
+func entryStrings(v *walk.Version, cols []string) []string {
+	var out []string
+	for i := range v.Entries {
+		e := &v.Entries[i]
+		var sb strings.Builder
+		fmt.Fprintf(&sb, "%s mod=%d tomb=%d", walk.KeyString(e.Key), e.Mod, e.Tomb)
+		if e.Row != nil {
+			fmt.Fprintf(&sb, " deleted=%v status@%d", e.Row.Deleted, e.DeleteTime())
+			for _, col := range cols {
+				if t, ok := e.ColTime(col); ok {
+					fmt.Fprintf(&sb, " %s=%s@%d", col, walk.KeyString(e.Row.ColumnValues[col].Value), t)
+				}
+			}
+		}
+		out = append(out, sb.String())
+	}
+	return out
+}
+
+// memEntries renders the writer's in-memory tree the same way, through the exported Go API.
+func memEntries(table string) ([]string, error) {
+	vt := s3db.GetTable(table)
+	if vt == nil || vt.Tree == nil {
+		return nil, fmt.Errorf("table %s not registered", table)
+	}
+	ctx := context.Background()
+	cur, err := vt.Tree.Root.Cursor(ctx)
+	if err != nil {
+		return nil, err
+	}
+	if err := cur.Min(ctx); err != nil {
+		return nil, err
+	}
+	var out []string
+	for {
+		k, v, ok := cur.Get()
+		if !ok {
+			break
+		}
+		var sb strings.Builder
+		fmt.Fprintf(&sb, "%s mod=%d tomb=%d", walk.KeyString(k.(*s3db.Key).SQLiteValue), v.ModEpochNanos, v.TombstoneSinceEpochNanos)
+		if row, _ := v.Value.(*v1proto.Row); row != nil {
+			fmt.Fprintf(&sb, " deleted=%v status@%d", row.Deleted, v.ModEpochNanos+int64(row.DeleteUpdateOffset.AsDuration()))
+			for _, col := range []string{"a", "b"} {
+				if cv, ok := row.ColumnValues[col]; ok {
+					fmt.Fprintf(&sb, " %s=%s@%d", col, walk.KeyString(cv.Value), v.ModEpochNanos+int64(cv.UpdateOffset.AsDuration()))
+				}
+			}
+		}
+		out = append(out, sb.String())
+		if err := cur.Forward(ctx); err != nil {
+			return out, err
+		}
+	}
+	return out, nil
 }
